@@ -17,7 +17,7 @@ import (
 //     hundreds, 10^3k and its neighbours for every scale word, negative numbers.
 // The known findings are respected through the static predicate proved exact in Coq
 // (EnglishProofs.english_ok, C15_english_loop_exact; C15_dirR_roman_exact): the English text is compared exactly
-// where english_ok holds (below 10^66, ordinals
+// where english_ok holds (ordinals
 // only of numbers that do not end in 0 beyond 10), the Roman text everywhere but at 0.
 // Every difference is reported with its input.
 
@@ -127,7 +127,7 @@ func specEnglish(ordinal bool, z *big.Int) (string, bool) {
 func englishOK(ordinal bool, z *big.Int) bool {
 	n := new(big.Int).Abs(z)
 	if n.Cmp(pow10[66]) >= 0 {
-		return false
+		return true // both signal an error
 	}
 	if !ordinal || n.Sign() == 0 {
 		return true
@@ -209,8 +209,8 @@ func specSweep(ctx *common.Ctx) {
 				ctx.Hist("spec-sweep:outside-english_ok")
 				continue
 			}
-			want, _ := specEnglish(ordinal, z)
-			report(fmt.Sprintf(`(format nil "%s" %s)`, dir, z.String()), want, false)
+			want, ok := specEnglish(ordinal, z)
+			report(fmt.Sprintf(`(format nil "%s" %s)`, dir, z.String()), want, !ok)
 		}
 	}
 }
